@@ -151,6 +151,7 @@ EXTRA3 = {
     "C10": ("; spec immutability and unknown-key rules", " RO: setting up the rounding never changes the caller's spec; RW also rejects spec keys that nobody reads (a misspelt key is silently ignored)."),
     "C11": ("; kernel/function-name agreement", " S-kernel: grouped_<k> reduces with func='<k>'; IX also flags a pointer column used directly as an index."),
     "C16": ("; cap-dominance, capped-alias and clamped-difference rules", " B: a result built from a capped term through min/max/selection only is bounded; S-alias: a function that caps an argument does not compute with the uncapped one; N2: what a transfer rule subtracts inside max(0, need - x) is provably non-negative (one known finding: losses entered as negative income lift ALG II above the need)."),
+    "C19": ("; linear (affine-in-the-wage) abstract domain per regime and person scenario; residuum structure of the two shares", " L1/L2: with the regime and the person's characteristics bound to a scenario and the date's parameters concrete, every employee contribution is derived as a linear form a*w + b in the gross wage: a >= 0 inside the transition zone, the regular form is non-decreasing, and both forms agree at the upper zone boundary (to 0.005 EUR) - for every interval since 2015. S-sum: one transition-zone share is defined as the branch's total minus the other share."),
     "C18": ("; no-rounding scan of the schedule machinery", " G0: the functions generating and evaluating schedules do no rounding (intercepts are the exact left limits)."),
 }
 NOT_APPLICABLE = {
